@@ -1,4 +1,5 @@
 import OjgVerif.Sen.LemmasSafe
+import OjgVerif.Sen.LemmasTok
 import OjgVerif.Gen.SenFacts
 /-! # C06 (SEN clause) — no SEN input makes sen.Parse / ParseReader / Tokenize panic or hang
 (what is PROVED about the machine model; the crash search itself is the harness run)
@@ -33,9 +34,12 @@ BEFORE the repair (`plusFault := true`, the old `addString` kept as `St.addStrin
 `never_faults_before_false`: `[1 + "x"]` does fault (finding C06sen-plus-panic, fixed by 285bbf9).
 
 That the Go code behaves like the model on malformed input is the correspondence run (every call under
-`recover` and a watchdog; the model predicts no panic at all now). The tokenizer profile is not covered
-by `never_faults_current` (it has no build stack; its run-time faults, if any, would surface as error
-results through its `recover`, which the run checks for). -/
+`recover` and a watchdog; the model predicts no panic at all now).
+
+`tokenizer_never_faults` (`_sen`): the same for the sen.Tokenizer profile — the tokenizer machine never ends
+in a run-time fault or in the no-progress state, for every prior instance state, configuration, input and
+chunking (it has no build stack: the only fault of its switch is `t.mode[256]` read without a length test in
+`closeArray`, excluded by `closers_have_endmark`; the only no-progress outcome by `tokenStart_progress`). -/
 namespace OjgVerif.C06sen
 open OjgVerif OjgVerif.Sen
 
@@ -170,6 +174,21 @@ theorem never_faults_full_current : never_faults_full {} := by
 /-- the witness of the old finding is an ordinary error now -/
 example : (match run senTables {} [[91, 49, 32, 43, 32, 34, 120, 34, 93]] with
     | .error e => e.kind == .plusNoString | .ok _ => false) = true := by decide +kernel
+
+/-! ### sen.Tokenizer -/
+
+/-- **C06 (SEN tokenizer)**: the sen.Tokenizer machine never ends in a run-time fault or in the no-progress
+state — over every table set that passes `TablesOK`, every configuration of the tokenizer profile, every
+prior instance state, input and chunking -/
+theorem tokenizer_never_faults {T : Tables} (hT : TablesOK T) (cfg : Cfg) (ht : cfg.tokenizer = true)
+    (prev : St) (chunks : List Bytes) (e : Err) (h : call T cfg prev chunks = .error e) : e.kind.isFault = false := by
+  rw [call_eq_ref hT] at h
+  exact call_quiet_tok_ref cfg ht prev chunks e h
+
+/-- the same over the regenerated `sen/maps.go` -/
+theorem tokenizer_never_faults_sen (cfg : Cfg) (ht : cfg.tokenizer = true) (prev : St) (chunks : List Bytes)
+    (e : Err) (h : call senTables cfg prev chunks = .error e) : e.kind.isFault = false :=
+  tokenizer_never_faults senTables_ok cfg ht prev chunks e h
 
 /-! ### before 285bbf9 -/
 
